@@ -56,6 +56,13 @@ Fixpoint take (n : Z) (l : bytes) : bytes :=
   | x :: r => if n <=? 0 then [] else x :: take (n - 1) r
   end.
 
+(* what is left after the first n elements *)
+Fixpoint drop (n : Z) (l : bytes) : bytes :=
+  match l with
+  | [] => []
+  | x :: r => if n <=? 0 then l else drop (n - 1) r
+  end.
+
 (* b[lo:hi] when the bounds are in range *)
 Definition slice (lo hi : Z) (b : bytes) : bytes :=
   firstn (Z.to_nat (hi - lo)) (skipn (Z.to_nat lo) b).
@@ -281,14 +288,19 @@ Definition encode_mpub_msgs (bodies : list bytes) : bytes :=
 Definition encode_mpub (bodies : list bytes) : bytes :=
   be_enc 4 (u32_of_z (Z.of_nat (length bodies))) ++ encode_mpub_msgs bodies.
 
-(* protocolV2.MPUB after the command line: total size, then readMPUB on the connection *)
+(* protocolV2.MPUB after the command line: total size, then readMPUB on an
+   io.LimitReader of that many bytes of the connection: what the batch does not use of the
+   declared size, and everything beyond it, stays in the stream *)
 Definition mpub_tcp (max_msg max_body : Z) (s : bytes) : rd (list bytes) :=
   match read_len s with
   | None => RdErr E_BAD_BODY
   | Some (n, s1) =>
       if n <=? 0 then RdErr E_BAD_BODY
       else if n >? max_body then RdErr E_BAD_BODY
-      else read_mpub max_msg max_body s1
+      else match read_mpub max_msg max_body (take n s1) with
+           | RdOk bodies r => RdOk bodies (r ++ drop n s1)
+           | RdErr e => RdErr e
+           end
   end.
 
 Definition encode_mpub_tcp (bodies : list bytes) : bytes :=
@@ -346,11 +358,11 @@ Definition http_mpub_text (max_msg max_body : Z) (cl : Z) (body : bytes) : hres 
     let data := take read_max body in
     text_loop (S (length data)) max_msg read_max 0 data.
 
-(* doMPUB, binary mode: readMPUB straight on the request body; any error is 413 with
-   the code's E_ prefix cut off *)
+(* doMPUB, binary mode: readMPUB on an io.LimitReader of max_body bytes of the request
+   body; any error is 413 with the code's E_ prefix cut off *)
 Definition http_mpub_binary (max_msg max_body : Z) (cl : Z) (body : bytes) : hres :=
   if cl >? max_body then HErr H_BODY_TOO_BIG
-  else match read_mpub max_msg max_body body with
+  else match read_mpub max_msg max_body (take max_body body) with
        | RdOk bodies _ => HOk bodies
        | RdErr E_BAD_BODY => HErr H_BAD_BODY
        | RdErr E_BAD_MESSAGE => HErr H_BAD_MESSAGE
